@@ -129,4 +129,24 @@ theorem C13_skeleton_New : Sso.Generated.skel_proxy_New =
 theorem C13_skeleton_SetValidators : Sso.Generated.skel_proxy_SetValidators =
     ["func{", "store:op.Validators", "return", "}", "return"] := by decide
 
+/-- Tie (T1), second wave: helpers, stores and second callers on this property's path (hostmux_HandleStatic, hostmux_HandleRegexp, hostmux_ServeHTTP, cfg_rewriteRoute, cfg_simpleRoute, proxy_StaticDirectorFunc, proxy_RewriteDirectorFunc, proxy_singleJoiningSlash) — call/branch/store skeletons
+regenerated from the source on every run against the expectations frozen here. -/
+theorem C13_wiring2 :
+    Sso.Generated.skel_hostmux_HandleStatic =
+      ["call:Lock", "store:r.StaticRoutes[]", "call:Unlock"] ∧
+    Sso.Generated.skel_hostmux_HandleRegexp =
+      ["call:Lock", "call:append", "store:r.RegexpRoutes", "call:Unlock"] ∧
+    Sso.Generated.skel_hostmux_ServeHTTP =
+      ["call:Route", "call:Handler", "call:ServeHTTP"] ∧
+    Sso.Generated.skel_cfg_rewriteRoute =
+      ["call:Compile", "if{", "return", "}", "return"] ∧
+    Sso.Generated.skel_cfg_simpleRoute =
+      ["call:urlParse", "if{", "return", "}", "call:urlParse", "if{", "return", "}", "return"] ∧
+    Sso.Generated.skel_proxy_StaticDirectorFunc =
+      ["call:DirectorFunc", "return"] ∧
+    Sso.Generated.skel_proxy_RewriteDirectorFunc =
+      ["func{", "call:ReplaceAllString", "call:urlParse", "if{", "store:req.URL", "return", "}", "call:?", "}", "return"] ∧
+    Sso.Generated.skel_proxy_singleJoiningSlash =
+      ["call:HasSuffix", "call:HasPrefix", "switch{", "case aslash&&bslash{", "return", "}", "case !aslash&&!bslash{", "return", "}", "}", "return"] := by decide
+
 end Sso.Proxy
